@@ -213,6 +213,7 @@ def main(tier, seed):
     reg_problems = 0
     ctor_cases = 0
     model_fns = {}
+    reported = set()
     for k in candidates + non_keys:
         for cname, kw in [("OPF", {})] + MODEL_CTORS:
             cls = OPF if cname == "OPF" else getattr(models, cname)
@@ -232,6 +233,9 @@ def main(tier, seed):
                     model_fns[(cname, k)] = fn
                 continue
             reg_problems += 1
+            if k in reported:
+                continue
+            reported.add(k)
             if outcome == "keyerror":
                 what = ("identifier %r passes the models' whitelist but is missing from DISTANCES: %s(distance=%r) raises KeyError"
                         % (k, cname, k))
